@@ -84,7 +84,7 @@ def run_family(ctx, name, behaviours, tags, server_flags=None, subcmd="run"):
                 break
         kf = F.attribute(ctx.prop, v, evs, first)
         if kf is None and v["tid"] not in attributed_tids and v["tid"] not in prefix_tried \
-                and v["tag"] in ("Converged", "RefEquiv", "BuildEquiv", "ConvergedN", "RefEquivN") and v["tid"] in byid and subcmd == "run":
+                and v["tag"] in DIVERGENCE_TAGS and v["tid"] in byid and subcmd == "run":
             # one response may deliver the diverging change AND a later one that amplifies the divergence, so the first
             # observable disagreement need not have the finding's shape: look for the shortest PREFIX of the behaviour
             # that already disagrees with the reference, and judge that one
@@ -99,7 +99,7 @@ def run_family(ctx, name, behaviours, tags, server_flags=None, subcmd="run"):
             if len(diff_tried) <= ATTRIBUTION_BUDGET:
                 kf = undo_gc_differential(ctx, byid[v["tid"]], evs, server_flags, "ncontent" if v["tag"].endswith("N") else "content")
         if kf is None and v["tid"] in attributed_tids and v["tag"] in ("Converged", "RefEquiv", "BuildEquiv", "BuildNeverFails", "SyncNeverFails", "LogReplayable",
-                                                                       "ConvergedN", "RefEquivN"):
+                                                                       "ConvergedN", "RefEquivN", "CompactionKeepsContent"):
             # a behaviour whose FIRST disagreement with the reference is explained by a listed finding: once the
             # structures differ, later operations resolve differently, so what follows in the same behaviour is a
             # consequence of it
@@ -165,7 +165,7 @@ def undo_gc_differential(ctx, b, evs, server_flags, field="ncontent"):
     return f
 
 
-DIVERGENCE_TAGS = ("RefEquiv", "Converged", "BuildEquiv", "RefEquivN", "ConvergedN")
+DIVERGENCE_TAGS = ("RefEquiv", "Converged", "BuildEquiv", "RefEquivN", "ConvergedN", "CompactionKeepsContent")
 
 
 def shrink_steps(ctx, b, tags, server_flags, max_rounds=40):
@@ -252,7 +252,7 @@ def prefix_attribution(ctx, b, server_flags):
     ctx.count("prefix_attribution_runs")
     bad = {}
     for v in viols:
-        if v["tag"] in ("RefEquiv", "BuildEquiv", "Converged", "SyncNeverFails", "LogReplayable", "BuildNeverFails", "RefEquivN", "ConvergedN"):
+        if v["tag"] in ("RefEquiv", "BuildEquiv", "Converged", "LogReplayable", "BuildNeverFails", "RefEquivN", "ConvergedN", "CompactionKeepsContent"):
             k = int(v["tid"].rsplit("~p", 1)[1])
             bad.setdefault(k, []).append(v)
     if not bad:
